@@ -156,19 +156,11 @@ def r4(c):
     c.ob('listens', q.sem_is_name(ro, r, 'self') and any('commands' in p for p in r.proj), 'the session listens to its own command receiver while waiting for frames', repr(r), rc.loc())
     sel = q.select_sites(ro)
     c.ob('raced', len(sel) == 1 and rc in sel[0]['futures'] and any(f is not None and f.callee.endswith('next_frame') for f in sel[0]['futures']), 'commands are raced with next_frame', '', loc_of(ro))
-    none = q.outcomes(ro, rc).get('None', [])
-    okn = len(none) == 1
-    if okn:
-        xs = [x for x in q.exits(ro) if q.dom(ro, none[0], x['node'])]
-        okn = bool(xs) and all(x['kind'] == 'agg' and x['variant'] == 'Err' and (q.agg_variant_of(ro, x['rv']['a'][0]) or ('', ''))[1] == 'Shutdown' for x in xs)
-    c.ob('closed->shutdown', okn, 'a closed command channel (evicted / server gone) yields Err(RequestError::Shutdown)', '', rc.loc())
+    okn, how, why = q.failure_leaves(ro, rc)
+    c.ob('closed->shutdown', okn, 'a closed command channel (evicted / server gone) makes run_one return an error', '%s: %s' % (how, why), rc.loc())
     ac = one(ro.calls('rodbus::server::task::SessionTask::apply_command'), 'apply_command')
-    err = q.outcomes(ro, ac).get('Err', [])
-    oke = len(err) == 1
-    if oke:
-        xs = [x for x in q.exits(ro) if q.dom(ro, err[0], x['node'])]
-        oke = bool(xs) and all(x['kind'] == 'agg' and x['variant'] == 'Err' for x in xs)
-    c.ob('command-shutdown', oke, 'Err(Shutdown) from apply_command ends the session', '', ac.loc())
+    oke, how, why = q.failure_leaves(ro, ac)
+    c.ob('command-shutdown', oke, 'Err(Shutdown) from apply_command makes run_one return an error (ends the session)', '%s: %s' % (how, why), ac.loc())
     ap = P.fn('rodbus::server::task::SessionTask::apply_command')
     arms = q.arms_of(ap, SC)
     for v, want in (('Shutdown', 'Err'), ('ChangeDecoding', 'Ok')):
